@@ -118,6 +118,8 @@ def initial_for(ftype, token, palette=None):
     # the same token means the same value whatever the column type is at that moment
     # ('7' and 7 are equal modulo column affinity), so that a sequence that re-types a
     # column between two fills is judged on the token, like the specification does
+    if token == 'p' and ftype in ('Char', 'Text'):
+        return '5% o\'k "q"'            # percent sign, single and double quotes
     if token == 'z':                     # a value Python regards as false: 0, False, the empty string
         if ftype in ('Char', 'Text'):
             return ''
@@ -311,6 +313,8 @@ def _expr_field(expressions, names):
 def _init_token(initial):
     if initial is None:
         return NONE
+    if isinstance(initial, str) and '%' in initial:
+        return 'p'
     if initial in (0, '', False) and initial is not None:
         return 'z'
     return 'j' if initial in (8, '8') and initial is not True else 'i'
